@@ -76,23 +76,29 @@ claim('C08',
 claim('C02',
       'TLC evaluates the adjoint identity <w, A v> = <A^T w, v> exactly (OMJudge.tla AdjOK) on observed integer/rational vectors for '
       'Problem.compute_jacvec_product fwd/rev and, for every group of generated models, run_apply_linear fwd/rev and run_solve_linear '
-      'fwd/rev; the public products are also compared with J v and J^T w from the exact TotalAll of OMModel.tla (JvOK).',
+      'fwd/rev; the public products are also compared with J v and J^T w from the exact TotalAll of OMModel.tla (JvOK).  A product taken '
+      'with a scope of inputs must equal the product of the projected argument (A_s = A P_s, both directions).  A third of the models carry '
+      'solver scaling (incl. residual-only scaling), some are three-level solver stacks.',
       SYS_NOTE, 'TLA+ system specification as exact oracle; TLC validates observed operator applications', '5.7, 6/C02')
 
 claim('C24',
       'OMModel.tla defines RelevantComps (Reach/CoReach over true variable-level dependencies). Generated models with dead branches are '
       'differentiated with recursing linear solvers and DirectSolver with relevance enabled and disabled (OPENMDAO_NO_RELEVANCE switch): '
       'TLC judges every block against the exact derivative in both runs and requires that every logged linear solve executed all '
-      'components the specification deems relevant to its seed.',
-      SYS_NOTE + ' Optimizer runs with pre/post-opt grouping and parallel_deriv_color seeds are not covered.',
+      'components the specification deems relevant to its seed.  Second family (optimisation loop): a deterministic optimisation-style driver '
+      'walks design points on models with non-design independents with group_by_pre_opt_post on and off; TLC judges the responses and '
+      'total-derivative blocks seen at every point and the complete state left after the run against the denotation at that point.',
+      SYS_NOTE + ' parallel_deriv_color seeds are not covered; the loop driver is the harness\'s own (real optimizers: C21).',
       'TLA+ system specification (relevance as graph reachability) + TLC validation of observed solves and totals', '5.7, 6/C24')
 
 claim('C31',
       'spec/sys/OMProblem.tla: the Problem API over the visible state (digest of all inputs and outputs); read-only calls are UNCHANGED, '
       'run_model is a function of the visible state. Two instances per generated model run the same mutating calls with different '
       'random interleavings of read-only calls (compute_totals, jacvec, check_partials/totals fd+cs, total coloring, list_*, get_val); '
-      'TLC validates the merged trace (Functional, ReadOnlyUnchanged).',
-      'Visible state = bytes of root input and output vectors; a derivative check on a model not yet run in its current state is modelled '
+      'TLC validates the merged trace (Functional, ReadOnlyUnchanged) and requires the RESULT of a read-only call (compute_totals) to be a '
+      'function of the visible state as well (rmemo: no hidden state leaks into later answers).  Half of the models carry solver scaling; '
+      'a third declare a total coloring whose sparsity is sampled with randomized seeds.',
+      'Visible state = root input and output vectors, identified up to the round-off of a scaling round trip (1e-12 relative / 1e-11 absolute); a derivative check on a model not yet run in its current state is modelled '
       'as running it first (documented behaviour); read-only calls that raise are counted, not judged.',
       'TLA+ API state machine + TLC trace validation of recorded executions', '5.7, 6/C31')
 
@@ -111,7 +117,8 @@ claim('C05',
 claim('C32',
       'spec/mech/Order.tla: ValidOrder (producers first across strongly connected components, declared relative order inside one) and the '
       'exact one-pass result; TLC checks Exists, OnePassSolves and BadOrderDetected for every digraph on 3 subsystems x every declared order '
-      '(4 subsystems: Exists; thorough). Every enumerated case is built flat and nested with auto_order=True; TLC (OrderJudge.tla) judges '
+      '(4 subsystems: Exists; thorough). Every enumerated case is built flat, nested with auto_order=True, nested below an auto_order parent that '
+      'is itself in order, and set up a second time after a run; TLC (OrderJudge.tla) judges '
       'the observed subsystem order and, for acyclic graphs, outputs equal the one-pass result with all residuals zero.',
       'Scalar ExecComp subsystems with run-once solvers; 3 nodes exhaustive, 4 nodes sampled (thorough).',
       'TLA+ graph specification + TLC exhaustive enumeration + TLC judging observed orders', '5.8, 6/C32')
@@ -211,14 +218,16 @@ claim('C20',
       'multiplier invariance over the declaration grid (scalar and per-element arrays, negative scalers, ref < ref0, unit maps with offsets). '
       'Every exported scenario is executed on a real Problem: values, cached bounds, total-derivative blocks, set/get round trip and multiplier '
       'unscaling compared at 1e-12; the division-free form of the inverse law is machine-proved with TLAPS.',
-      'Quick tier pairs every design-variable declaration with every second constraint declaration; bounds are pointwise images (no lower/upper '
-      'swap demanded for negative scalers - see the C21 finding); no pyoptsparse: multipliers via apply_mult_unscaling / compute_lagrange_multipliers.',
+      'Quick tier pairs every design-variable declaration with every second constraint declaration; the bound PAIR an optimizer sees is the image '
+      'of the interval (a negative scaler exchanges lower and upper: the behaviour since the fix of C21-negative-constraint-scaler); arrays with one '
+      'neutral element (scaler exactly 1 / adder exactly 0); multipliers of active design-variable bounds end to end; no pyoptsparse.',
       'TLA+ exact-rational specification + TLC over a declaration grid + scenario replay; TLAPS proof of the integer inverse law', '5.8, 6/C20')
 
 claim('C23',
       'spec/mech/DOE.tla: full factorial = exactly the Cartesian product of per-factor linspace level sets (exact rationals, int or dict levels), '
       'in-bounds, the Latin-hypercube stratum permutation law, reproducibility. TLC checks the product laws on all design-variable sets x levels '
-      'forms and exports the exact designs; the same module judges observed designs of Uniform, LatinHypercube (all criteria), Plackett-Burman, '
+      'forms and exports the exact designs; the same module judges observed designs of Uniform, LatinHypercube (all criteria; a fresh generator '
+      'with the same seed AND the same generator object asked twice must reproduce the design), Plackett-Burman, '
       'Box-Behnken and GeneralizedSubset generators; FullFactorial output is compared point for point; DOEDriver runs with every generator '
       '(incl. List, CSV) are compared case by case with what a spy component sees and what a SqliteRecorder stores.',
       'Small-scope enumeration (1-3 variables of 1-2 elements); observed doubles reach TLC as exact integer facts (signs, stratum index, '
@@ -239,7 +248,8 @@ claim('C18',
 
 claim('C26',
       'spec/mech/StockComps.tla: formulas and exact Jacobians of the ten stock math components over exact rationals; TLC enumerates option sets '
-      '(vec_size, shapes, axis, scaling factors, unit factors, use_mult/normalize ...) with integer inputs and checks the laws (exact difference = '
+      '(vec_size, shapes, positive and negative axes, scaling factors, unit factors, use_mult/normalize, input names repeated within an '
+      'AddSubtractComp equation ...) with integer inputs and checks the laws (exact difference = '
       'Jacobian column, Mux bijection, skew structure, A x = b relation ...); every exported scenario is built as the real component and its '
       'outputs and assembled totals (fwd/rev) or residual-form sub-Jacobians are compared at 1e-12.',
       'Integer / Pythagorean / unimodular data; SplineComp Jacobian entry-wise for slinear and by reproduction relations otherwise; BalanceComp in residual form.',
@@ -248,7 +258,9 @@ claim('C26',
 claim('C28',
       'PARTIAL. spec/mech/Surrogate.tla: (a) ResponseSurface on integer quadratics at off-lattice dyadic points (exact value and gradient), (b) the '
       'lookup law Predict(train_x[i]) = train_y[i] for NearestNeighbor linear/weighted/rbf and Kriging, (c) the MetaModelUnStructuredComp plumbing: '
-      'the exact dense Jacobian and the index map of which linearize() entry each total must forward; all TLC-exported scenarios are replayed.',
+      'the exact dense Jacobian and the index map of which linearize() entry each total must forward; all TLC-exported scenarios are replayed; every '
+      '2-variable ResponseSurface scenario is replayed again under a dyadic change of variables (badly scaled inputs, 1e-6) and every Kriging lookup '
+      'after a training-cache file written by another training on the same inputs.',
       'Derivative-of-predict for non-polynomial surrogates is only a central-difference relation on observed numbers; Kriging lookup judged only for '
       'cond(R) <= 1e4.',
       'TLA+ enumeration with exact quadratic oracle, lookup law and Jacobian index map + replay', '6/C28, 7')
@@ -290,17 +302,20 @@ claim('C14',
       'spec/mech/Expr.tla: expression trees over ExecComp\'s function table, the symbolic derivative D(e, x) and domain conditions; TLC checks the '
       'laws of D (incl. exact agreement with dual-number differentiation over the rationals on the algebraic fragment) on every tree with at most two '
       'operator nodes plus seeded deeper trees; every tree is rendered as an ExecComp expression and executed for shapes x has_diag_partials x '
-      'do_coloring x shape_by_conn at two points; outputs, totals, sub-Jacobians and declared sparsity are compared with the value and derivative '
-      'trees evaluated by NumPy.',
+      'do_coloring x shape_by_conn at two points (for colored configurations the first point may hold an exactly-zero variable, off every branch '
+      'cut); outputs, totals, sub-Jacobians and declared sparsity are compared with the value and derivative trees evaluated by NumPy.',
       'NumPy primitives are the trusted base; elementwise expressions; configurations per tree sampled; points keep a margin from kinks and poles.',
       'TLA+ expression/derivative spec + TLC (exhaustive + simulate) + replay into ExecComp', '5.8, 6/C14, 7')
 
 claim('C33',
       'spec/mech/Vector.tla: the NumPy semantics of OpenMDAO\'s vector on exact rationals (set_val, set_vec, +=, -=, *=, add_scal_vec, named and '
-      'indexed writes, scale_to_norm / scale_to_phys fwd and rev with per-entry (a0, a1) incl. negative a1); TLC checks ViewsTile, ScaleRoundTrip, '
-      'DualPairing, NormLaw, NamedWriteFrame, OtherUntouched exhaustively to depth 2 and along random histories; every history is replayed on the '
-      'root vectors of a real Problem with flat data, views, dot and norm compared after every action.',
-      'Real mode only; input vectors and rev-scaling of nonlinear vectors outside; histories sampled.',
+      'indexed writes, iadd/isub/imul with idxs, scale_to_norm / scale_to_phys fwd and rev with per-entry (a0, a1) incl. negative a1) and its '
+      'complex-step mode (two data planes, set_complex_step_mode, complex operands, set vs arithmetic semantics on the imaginary plane); TLC checks '
+      'ViewsTile, ScaleRoundTrip, DualPairing, NormLaw, NamedWriteFrame, OtherUntouched, HiddenPlane, ModeSwitchFrame exhaustively to depth 2 (quick: '
+      'complex storage to depth 1) and along random histories of three families; every history is replayed on the root vectors of a real Problem with '
+      'both planes, views, dot and norm compared after every action.',
+      'Input vectors and rev-scaling of nonlinear vectors outside; histories sampled; dot() in complex-step mode specified as the code computes it '
+      '(bilinear; the docstring says real parts).',
       'TLA+ exact-rational vector semantics + TLC (exhaustive depth 2 + simulation) + history replay', '5.8, 6/C33')
 
 claim('C34',
@@ -317,7 +332,8 @@ claim('C17',
       'strings; TLC checks on every bounded run tree (RecorderMC) that the flat listings equal execution order and exact descendants, and '
       'refutes the off-by-one window and two transcribed reader defects.  Bound to the code by replaying the observed push/pop/record '
       'stream of real generated runs through the spec\'s actions (RecorderJudge) and judging every reader answer and every case\'s '
-      'variable set in TLA+; values are compared with an independent live snapshot.',
+      'variable set in TLA+ (incl. get_case(<int>) with Python index semantics, systems whose names start with "root", design variables and '
+      'responses recorded irrespective of record_outputs); values are compared with an independent live snapshot.',
       'Serial SqliteRecorder/reader only; no discrete variables, aliases, record_derivatives, line-search recorders or late attachment; '
       'iteration numbers of driver/solver frames are taken from the events, only system counters are predicted.',
       'TLA+/TLC: exhaustive bounded run trees (RecorderMC) + trace validation of observed recordings and reader answers (RecorderJudge); '
